@@ -68,6 +68,8 @@ def point_malformations(X, fitted_d=None, with_pre=False):
         m['features_plus1'] = np.hstack([X, X[:, :1]])
         if d > 1:
             m['features_minus1'] = X[:, :-1].copy()
+        if d > 2:
+            m['features_one'] = X[:, :1].copy()           # exactly one feature (a length-1 axis broadcasts silently in many numpy ops)
     return m
 
 
@@ -104,6 +106,8 @@ def tuple_malformations(T, fitted_d=None, with_pre=False):
         m['features_plus1'] = np.concatenate([T, T[:, :, :1]], axis=2)
         if d > 1:
             m['features_minus1'] = T[:, :, :-1].copy()
+        if d > 2:
+            m['features_one'] = T[:, :, :1].copy()
     return m
 
 
@@ -335,7 +339,7 @@ def run_equiv(name, dsn):
         except Exception:
             refu = None
         if refu is not None:
-            for dt in (np.uint8, np.uint16, np.int16, np.int32):
+            for dt in (np.uint8, np.uint16, np.int16, np.int32, np.uint32, np.uint64):
                 evals += 1
                 vn = np.dtype(dt).name
                 try:
